@@ -271,14 +271,16 @@ func (b *Builder) compositeLit(x *ast.CompositeLit) *Term {
 	if t == nil {
 		return &Term{Op: "opaque", Name: "?lit"}
 	}
+	if pt, ok := t.Underlying().(*types.Pointer); ok && x.Type == nil {
+		// elided &T{...} inside a composite literal
+		return mk("addr", "", b.compositeLitOf(x, pt.Elem()))
+	}
+	return b.compositeLitOf(x, t)
+}
+
+func (b *Builder) compositeLitOf(x *ast.CompositeLit, t types.Type) *Term {
 	elemPtrWrap := func(e ast.Expr, et types.Type) *Term {
-		v := b.expr(e)
-		if cl, ok := ast.Unparen(e).(*ast.CompositeLit); ok && cl.Type == nil {
-			if _, isPtr := et.Underlying().(*types.Pointer); isPtr {
-				return mk("addr", "", v)
-			}
-		}
-		return v
+		return b.expr(e)
 	}
 	switch u := t.Underlying().(type) {
 	case *types.Struct:
@@ -527,8 +529,10 @@ func (b *Builder) recvTerm(sel *ast.SelectorExpr, sig *types.Signature) *Term {
 func (b *Builder) args(call *ast.CallExpr, sig *types.Signature) []*Term {
 	var out []*Term
 	if len(call.Args) == 1 && sig.Params().Len() > 1 {
-		// f(g()) with g returning a tuple
-		return b.multi(call.Args[0], sig.Params().Len())
+		if tup, ok := b.info.TypeOf(call.Args[0]).(*types.Tuple); ok && tup.Len() > 1 {
+			// f(g()) with g returning a tuple
+			return b.multi(call.Args[0], tup.Len())
+		}
 	}
 	for i, a := range call.Args {
 		t := b.expr(a)
